@@ -22,6 +22,12 @@ check("C06", "exploration", "explore+gparse",
       "Trusted: the corpus covers each delimiter kind; bugs needing more than k specific cuts or streams outside the corpus shapes are outside the bound.",
       "DESIGN.md section 3, C06")
 
+check("C01", "exploration", "explore+gparse",
+      "bounded-exhaustive enumeration of connection byte streams (slot grammar of framing fields / chunk syntax / request lines, plus every byte value substituted or inserted at every offset of seed streams) on the real RequestParser, judged in lock-step by an independent strict RFC 9112 reader",
+      "Every stream of the stated finite spaces is parsed by the real parser under each safe configuration and compared message by message (body bytes, end offset, must-reject classes) with vlib/rfc_request.py, a three-valued reference reader that imports nothing from gunicorn and is first checked against the repository's own valid fixtures. Exhaustive within the alphabets: <=2 (thorough 3) framing lines from ~100 line variants, all 256 byte values at every offset of 9 seeds, pairs of odd bytes inside the TE/CL/chunk-size tokens.",
+      "Trusted: the reference reader (Appendix A of DESIGN.md); streams needing more than the stated number of interacting odd tokens are outside the bound; documented-unsafe parser modes excluded; over-rejection is not a violation.",
+      "DESIGN.md section 3, C01; Appendix A")
+
 ALL = ["C%02d" % i for i in range(1, 21)]
 for pid in ALL:
     if pid not in CHECKS:
